@@ -16,6 +16,14 @@ Definition upper_ascii (c : ascii) : ascii :=
   let n := nat_of_ascii c in if ((97 <=? n) && (n <=? 122))%nat then ascii_of_nat (n - 32)%nat else c.
 Fixpoint upper (s : string) : string :=
   match s with EmptyString => EmptyString | String c r => String (upper_ascii c) (upper r) end.
+(* str.strip() on ASCII whitespace (space, \t \n \v \f \r, and the separators 28..31) *)
+Definition is_space (c : ascii) : bool :=
+  let n := nat_of_ascii c in ((n =? 32) || ((9 <=? n) && (n <=? 13)) || ((28 <=? n) && (n <=? 31)))%nat.
+Fixpoint lstrip (s : string) : string :=
+  match s with EmptyString => EmptyString | String c r => if is_space c then lstrip r else s end.
+Fixpoint rev_onto (s acc : string) : string := match s with EmptyString => acc | String c r => rev_onto r (String c acc) end.
+Definition rev_string (s : string) : string := rev_onto s EmptyString.
+Definition str_strip (s : string) : string := rev_string (lstrip (rev_string (lstrip s))).
 (* str(label): Python prints None as "None" *)
 Definition str_of (l : option string) : string := match l with Some s => s | None => "None" end.
 Definition is_some {A} (o : option A) := match o with Some _ => true | None => false end.
